@@ -14,19 +14,23 @@
   constants, the teardown table and the shape facts of the code are re-extracted
   on every run (`Gen.ExecTask`) and identified with the model below.
 
-  Two configurations of the model: `codeCfg` = the code as it is, `legacyCfg` = the
-  code before five `fix:` commits (ensureBasicTaskKilled nil tests + non-blocking
+  Three configurations of the model: `codeCfg` = the code as it is, `legacyCfg` = the
+  code before seven `fix:` commits (ensureBasicTaskKilled nil tests + non-blocking
   push, handleLaunchEvent nil task, Launch goroutine nil Process, KILL of an inactive
-  task ignored, Kill stops the TASK_RUNNING timer). Every switch of `codeCfg` is
-  identified with a fact read off the source (`C17_repairs_are_code`): reverting a
-  repair breaks that theorem and the correspondence.
+  task ignored, Kill stops the TASK_RUNNING timer, handleKillEvent takes the entry out
+  in the section that looks it up, startBasicTask works on its own command pointer),
+  `overlapLegacyCfg` = the code before the last two (which matter only when requests
+  overlap). Every switch of `codeCfg` is identified with a fact read off the source
+  (`C17_repairs_are_code`): reverting a repair breaks that theorem and the
+  correspondence.
 
   The statements the repairs made true are proved for `codeCfg` at full strength
-  (`…_code`) and refuted for `legacyCfg` on the witness schedules of the six repaired
-  findings (`C17_finding_*`). Three findings are still open (`kill_unready_ctl_panics`,
-  `basic_kill_spares_child`, `ctl_kill_spares_helpers`): their full-strength
-  statements stay `def …_full`, refuted for `codeCfg`, proved under the hypothesis
-  that excludes exactly that request state (`…_partial`, `…_code`).
+  (`…_code`) and refuted for `legacyCfg` / `overlapLegacyCfg` on the witness schedules
+  of the eight repaired findings (`C17_finding_*`). Four findings are still open
+  (`kill_unready_ctl_panics`, `basic_kill_spares_child`, `ctl_kill_spares_helpers`,
+  `basic_stop_spares_helpers`): their full-strength statements stay `def …_full`,
+  refuted for `codeCfg`, proved under the hypothesis that excludes exactly that
+  request state (`…_partial`, `…_code`).
 -/
 import ControlModel.Gen.ExecTask
 import ControlModel.Proofs.ExecTask
@@ -58,14 +62,21 @@ theorem C17_running_timer_is_code : 200 ≤ Gen.ExecTask.runningDelayMs := by de
     and sends on pendingFinalTaskStateCh only as a select case next to a default; handleLaunchEvent returns when
     NewTask gave nil, before calling Launch; ControllableTask.Launch tests taskCmd.Process for nil;
     handleKillEvent returns nil when the task is not in activeTasks; doLaunch keeps the TASK_RUNNING timer in a
-    field that basicTaskBase.Kill stops. Reverting one of the repairs flips a fact and breaks this theorem. -/
+    field that basicTaskBase.Kill stops; handleKillEvent looks the task up and deletes its entry in one critical
+    section of the handler itself (and no longer leaves the first removal to the goroutine); startBasicTask keeps
+    the command prepareTaskCmd returned in a local variable, calls StdoutPipe/StderrPipe/Start/Wait on it only and
+    never reads the field t.taskCmd (no call through the field, no copy of the field inside the reaper goroutine).
+    Reverting one of the repairs flips a fact and breaks this theorem. -/
 theorem C17_repairs_are_code :
     codeCfg = { stopNilSafe := Gen.ExecTask.stopChecksProcessStateNil && Gen.ExecTask.stopChecksProcessNil &&
                   Gen.ExecTask.stopPushNonBlocking,
                 launchNilSafe := Gen.ExecTask.launchReturnsOnNilTask,
                 startFailSafe := Gen.ExecTask.launchChecksProcessNil,
                 killInactiveIgnored := Gen.ExecTask.killInactiveReturnsNil,
-                killStopsTimer := Gen.ExecTask.basicKillStopsTimer } := by decide
+                killStopsTimer := Gen.ExecTask.basicKillStopsTimer,
+                killClaimsEntry := Gen.ExecTask.killClaimsEntryInHandler && !Gen.ExecTask.killRemovesEntryInGoroutine,
+                startOwnsCmd := Gen.ExecTask.startOwnsCmd && !Gen.ExecTask.startThroughField &&
+                  !Gen.ExecTask.reaperCopiesCmdInGoroutine } := by decide
 
 /-- The two shape facts behind the model's remaining crash / survivor steps (open findings), read off the
     source: ControllableTask.Kill uses t.rpc without a nil test, basicTaskBase.Kill signals nothing.
@@ -470,16 +481,15 @@ below are about EVERY member of that set, for all kinds, behaviours and schedule
 
 /-- What the overlap model assumes about how requests are served IS what the source says (go/ast): both handlers
     look the task up themselves and serve the request (Transition, Trigger, Kill) from a goroutine they start;
-    handleKillEvent removes the entry from activeTasks only inside that goroutine (a second KILL still finds the
-    task); startBasicTask calls Start() through the field t.taskCmd and its reaper goroutine copies the field only
-    when it runs, basicTaskBase.Kill sets the field to nil, and none of them takes a lock (the parts `exec` and
-    `reap` can find nil); ensureBasicTaskKilled runs straight through — no loop, no receive, no sleep — so that a
-    STOP is ONE part. A change that lets a STOP wait, or that serialises the requests, flips a fact and breaks
-    this theorem: the granularity of the model then has to be redone together with the correspondence. -/
+    basicTaskBase.Kill sets the field t.taskCmd to nil, and neither it nor startBasicTask nor ensureBasicTaskKilled
+    takes a lock (the parts of two requests interleave freely); ensureBasicTaskKilled runs straight through — no
+    loop, no receive, no sleep — so that a STOP is ONE part. (Where the entry is removed from activeTasks and
+    whether startBasicTask reads the field are switches of the model: `C17_repairs_are_code`.) A change that lets a
+    STOP wait, or that serialises the requests, flips a fact and breaks this theorem: the granularity of the model
+    then has to be redone together with the correspondence. -/
 theorem C17_overlap_is_code :
     Gen.ExecTask.messagesServedInGoroutine = true ∧ Gen.ExecTask.killServedInGoroutine = true ∧
-    Gen.ExecTask.lookupInHandler = true ∧ Gen.ExecTask.killRemovesEntryInGoroutine = true ∧
-    Gen.ExecTask.reaperCopiesCmdInGoroutine = true ∧ Gen.ExecTask.startThroughField = true ∧
+    Gen.ExecTask.lookupInHandler = true ∧
     Gen.ExecTask.basicKillClearsCmd = true ∧ Gen.ExecTask.stopDoesNotWait = true ∧
     Gen.ExecTask.basicTaskLocks = false := by decide
 
@@ -491,15 +501,16 @@ theorem C17_overlap_conservative (c : Cfg) (k : Kind) (b : Beh) (ops : List Op) 
   runI_plain c k b ops
 
 /-- The atomic parts are a refinement of the step: the look-up and the parts of ONE request, run with nothing in
-    between, do exactly what `step` does — for every state, every request (in particular `prep; exec; reap` is
-    `spawn`). -/
+    between, do exactly what `step` does — for every configuration, every state, every request (in particular
+    `prep; exec; reap` is `spawn`, and a KILL that takes the entry out at its look-up and then runs Kill() is the
+    KILL step). -/
 theorem C17_request_alone_is_step (c : Cfg) (s : St) (op : Op) (hl : s.loop = true) (hr : op.isRequest = true) :
     runThread c (partsOf s.kind op) s none =
       if (step c s op).2.halts then .error (step c s op).2 else .ok ((step c s op).1, some (step c s op).2) :=
   runThread_is_step c s op hl hr
 
 /-- An overlap generalises the sequence: "A served completely, then B" is always one of the behaviours of
-    `par a b` — for every state and every pair of requests. -/
+    `par a b` — for every configuration, every state and every pair of requests. -/
 theorem C17_overlap_includes_sequential (c : Cfg) (s : St) (a b : Op) (hl : s.loop = true)
     (hra : a.isRequest = true) (hrb : b.isRequest = true) (ha : (step c s a).2.halts = false)
     (hl' : (step c s a).1.loop = true) (hb : (step c (step c s a).1 b).2.halts = false) :
@@ -507,20 +518,32 @@ theorem C17_overlap_includes_sequential (c : Cfg) (s : St) (a b : Op) (hl : s.lo
   par_includes_seq c s a b hl hra hrb ha hl' hb
 
 /-- ONE part of the handling of a request gets the executor stuck EXACTLY in the states `unsafePart` — for every
-    state, reachable or not: a request served in one piece where `step` is stuck (`C17_stuck_iff_unsafe`), the
-    parts of startBasicTask that use t.taskCmd exactly when it is nil. -/
+    configuration and every state, reachable or not: a request served in one piece where `step` is stuck
+    (`C17_stuck_iff_unsafe`); before startBasicTask worked on its own pointer, its parts that use t.taskCmd exactly
+    when the field is nil. -/
 theorem C17_part_stuck_iff_unsafe (c : Cfg) (s : St) (p : Part) : (pstep c s p).halts = unsafePart c s p :=
   pstep_halts_iff c s p
 
-/-- FULL-STRENGTH (false of the code: `C17_finding_overlapping_kills_two_terminals`): whatever requests overlap,
-    every run sends at most one terminal status. -/
+/-- **In the code as it is** a part is stuck in ONE kind of state only — Kill() of a controllable task whose rpc
+    client is nil (the open finding `kill_unready_ctl_panics`): no part of startBasicTask can find a nil command
+    any more. -/
+theorem C17_unsafe_part_code (s : St) (p : Part) :
+    unsafePart codeCfg s p = (match p with
+      | .whole op => killNoRpc { s with active := true } op
+      | _ => false) := by
+  cases p with
+  | whole op => exact C17_unsafe_code.1 _ op
+  | _ => simp [unsafePart, codeCfg]
+
+/-- FULL-STRENGTH, TRUE of the code as it is (`C17_overlap_one_terminal_code`), false of the code before
+    handleKillEvent took the entry out at its look-up (`C17_finding_overlapping_kills_two_terminals`): whatever
+    requests overlap, every run sends at most one terminal status. -/
 def C17_overlap_one_terminal_full (c : Cfg) : Prop :=
   ∀ (k : Kind) (b : Beh) (items : List Item), items.all (Item.ok k) = true →
     (runI c k b items).all (fun o => oneTerminal (o.obs.flat items).2.emits) = true
 
-/-- What IS proved, for every configuration, kind, behaviour and schedule of items: unless two KILLs overlap, EVERY
-    interleaving sends at most one terminal status, and a task on which a KILL was carried out is never reported
-    failed. -/
+/-- For every configuration, kind, behaviour and schedule of items: unless two KILLs overlap, EVERY interleaving
+    sends at most one terminal status, and a task on which a KILL was carried out is never reported failed. -/
 theorem C17_overlap_one_terminal_partial (c : Cfg) (k : Kind) (b : Beh) (items : List Item)
     (hn : items.all notTwoKills = true) :
     (runI c k b items).all (fun o => oneTerminal (o.obs.flat items).2.emits &&
@@ -537,44 +560,110 @@ theorem C17_overlap_one_terminal_partial (c : Cfg) (k : Kind) (b : Beh) (items :
       have := hinv.nof hk
       simpa [IOutcome.obs] using this
 
-/-- Finding (OPEN, true of the code as it is): two KILLs for the same basic or hook task delivered back to back —
-    both handlers find the task (the entry is removed only by the goroutine), both goroutines call Kill: two
-    TASK_FINISHED. -/
-theorem C17_finding_overlapping_kills_two_terminals : ¬ C17_overlap_one_terminal_full codeCfg := by
-  intro h
-  have := h .basic .ok [.one .tick, .par .kill .kill] (by decide)
-  revert this; decide
+/-- Whenever handleKillEvent takes the entry out of activeTasks in the section that looks it up — all kinds,
+    behaviours and schedules of items, ANY two requests overlapping, two KILLs (and a KILL of a controllable task)
+    included: EVERY interleaving sends at most one terminal status, and a task on which a KILL was carried out is
+    never reported failed. The KILL that found the task holds it: every later look-up — a second KILL's in
+    particular — is refused. -/
+theorem C17_overlap_one_terminal_claimed (c : Cfg) (hc : c.killClaimsEntry = true) (k : Kind) (b : Beh)
+    (items : List Item) (hn : items.all reqItem = true) :
+    (runI c k b items).all (fun o => oneTerminal (o.obs.flat items).2.emits &&
+      (!o.st.killed || !o.obs.emits.contains (.term .FAILED))) = true := by
+  simp only [List.all_eq_true, Bool.and_eq_true, Bool.or_eq_true, Bool.not_eq_true']
+  intro o ho
+  have hinv := runI_inv_claimed c hc k b items hn o ho
+  constructor
+  · rw [emits_flat]
+    simpa [oneTerminal, IOutcome.obs] using hinv.le1
+  · cases hk : o.st.killed
+    · exact Or.inl rfl
+    · right
+      have := hinv.nof hk
+      simpa [IOutcome.obs] using this
 
-/-- FULL-STRENGTH (false of the code: `C17_finding_kill_overlaps_start_panics`): whatever requests overlap on a
-    basic task, a hook task or a task without data, no run crashes or hangs the executor or ends its event loop. -/
+/-- **For the code as it is**, at full strength: whatever requests overlap, every run sends at most one terminal
+    status. -/
+theorem C17_overlap_one_terminal_code : C17_overlap_one_terminal_full codeCfg := by
+  intro k b items hok
+  have hn : items.all reqItem = true := by
+    simp only [List.all_eq_true] at hok ⊢
+    exact fun it hit => reqItem_of_ok k it (hok it hit)
+  have := C17_overlap_one_terminal_claimed codeCfg rfl k b items hn
+  simp only [List.all_eq_true, Bool.and_eq_true] at this ⊢
+  exact fun o ho => (this o ho).1
+
+/-- Finding (repaired, true of the code as it was): two KILLs for the same basic or hook task delivered back to
+    back — both handlers found the task (the entry was removed only by the goroutine), both goroutines called Kill:
+    two TASK_FINISHED. -/
+theorem C17_finding_overlapping_kills_two_terminals :
+    ¬ C17_overlap_one_terminal_full overlapLegacyCfg ∧ ¬ C17_overlap_one_terminal_full legacyCfg := by
+  constructor <;> intro h <;> have := h .basic .ok [.one .tick, .par .kill .kill] (by decide) <;> revert this <;> decide
+
+/-- The repaired behaviour on the witness of that finding and on its hook twin: one KILL is carried out, the other
+    is ignored, one terminal status — in every interleaving. -/
+example :
+    (runI codeCfg .basic .ok [.one .tick, .par .kill .kill]).all
+      (fun o => o.res == [.one .ok, .one .ok, .par .ok .ignored] && terminals o.st.out == 1 && !o.halted) = true ∧
+    (runI codeCfg .hook .ok [.par .kill .kill, .one .tick]).all
+      (fun o => o.res == [.one .ok, .par .ok .ignored, .one .ok] && o.st.out == [.term .FINISHED]) = true := by
+  decide
+
+/-- FULL-STRENGTH, TRUE of the code as it is (`C17_overlap_no_stuck_code`), false of the code before startBasicTask
+    worked on its own pointer (`C17_finding_kill_overlaps_start_panics`): whatever requests overlap on a basic task,
+    a hook task or a task without data, no run crashes or hangs the executor or ends its event loop. -/
 def C17_overlap_no_stuck_full (c : Cfg) : Prop :=
   ∀ (k : Kind) (b : Beh) (items : List Item), k ≠ .ctl → items.all (Item.ok k) = true →
     (runI c k b items).all (fun o => noStuck (o.obs.flat items).2.res) = true
 
-/-- **For the code as it is**, all behaviours, all schedules of items: over a basic task, a hook task or a task
-    without data NO interleaving of overlapping requests crashes or hangs the executor or ends its event loop —
-    unless a KILL overlaps a request that starts a child (the one open class). In particular STOP ∥ KILL, STOP ∥ STOP,
-    STOP ∥ START, KILL ∥ KILL and every overlap with a transition that is a no-op are handled in every order. -/
-theorem C17_overlap_no_stuck_code (k : Kind) (hk : k ≠ .ctl) (b : Beh) (items : List Item)
+/-- For every configuration with the repaired ensureBasicTaskKilled, KILL handler and launch (in particular the
+    code before startBasicTask worked on its own pointer), all behaviours, all schedules of items: over a basic
+    task, a hook task or a task without data NO interleaving of overlapping requests crashes or hangs the executor
+    or ends its event loop — unless a KILL overlaps a request that starts a child. In particular STOP ∥ KILL,
+    STOP ∥ STOP, STOP ∥ START, KILL ∥ KILL and every overlap with a transition that is a no-op are handled in every
+    order. -/
+theorem C17_overlap_no_stuck_partial (c : Cfg) (hs : c.stopNilSafe = true) (hi : c.killInactiveIgnored = true)
+    (hl : c.launchNilSafe = true) (k : Kind) (hk : k ≠ .ctl) (b : Beh) (items : List Item)
     (hn : items.all (noKillSpawn k) = true) :
-    (runI codeCfg k b items).all (fun o => noStuck (o.obs.flat items).2.res) = true := by
-  simp only [List.all_eq_true]
+    (runI c k b items).all (fun o => noStuck (o.obs.flat items).2.res) = true := by
+  simp only [List.all_eq_true] at hn ⊢
   intro o ho
-  exact noStuck_flat items o.obs (by simpa [IOutcome.obs] using runI_noStuck k hk b items hn o ho)
+  have hn' : items.all (safeItem c k) = true := by
+    simp only [List.all_eq_true]
+    exact fun it hit => safeItem_of_noKillSpawn c k it (hn it hit)
+  exact noStuck_flat items o.obs (by simpa [IOutcome.obs] using runI_noStuck c ⟨hs, hi, hl⟩ k hk b items hn' o ho)
 
-/-- Finding (OPEN, true of the code as it is): a KILL handled while a START of the same basic task (or the
-    trigger of the same hook) is being served — Kill sets t.taskCmd = nil under startBasicTask, whose next use of
-    the field (Start, or the reaper goroutine's copy) panics: the executor and every task on it are gone. -/
-theorem C17_finding_kill_overlaps_start_panics : ¬ C17_overlap_no_stuck_full codeCfg := by
-  intro h
-  have := h .hook .ok [.one .tick, .par .trigger .kill] (by decide) (by decide)
-  revert this; decide
+/-- **For the code as it is**, at full strength — all behaviours, all schedules of items, ANY two requests
+    overlapping, a KILL with a START / a trigger included: over a basic task, a hook task or a task without data NO
+    interleaving crashes or hangs the executor or ends its event loop. -/
+theorem C17_overlap_no_stuck_code : C17_overlap_no_stuck_full codeCfg := by
+  intro k b items hk hok
+  simp only [List.all_eq_true] at hok ⊢
+  intro o ho
+  have hn' : items.all (safeItem codeCfg k) = true := by
+    simp only [List.all_eq_true]
+    exact fun it hit => safeItem_of_owns codeCfg rfl k it (reqItem_of_ok k it (hok it hit))
+  exact noStuck_flat items o.obs (by simpa [IOutcome.obs] using runI_noStuck codeCfg codeCfg_repaired k hk b items hn' o ho)
 
-/-- The same class without a crash: when Kill happens to run before startBasicTask (whose look-up had already
-    succeeded), the child is started for a task whose terminal status is out — a survivor of a carried-out KILL;
-    and the hypotheses of the two overlap theorems are met by realistic schedules whose runs really differ. -/
+/-- Finding (repaired, true of the code as it was): a KILL handled while a START of the same basic task (or the
+    trigger of the same hook) is being served — Kill set t.taskCmd = nil under startBasicTask, whose next use of
+    the field (Start, or the reaper goroutine's copy) panicked: the executor and every task on it were gone. -/
+theorem C17_finding_kill_overlaps_start_panics :
+    ¬ C17_overlap_no_stuck_full overlapLegacyCfg ∧ ¬ C17_overlap_no_stuck_full legacyCfg := by
+  constructor <;> intro h <;> have := h .hook .ok [.one .tick, .par .trigger .kill] (by decide) (by decide) <;>
+    revert this <;> decide
+
+/-- What is left of that class in the code as it is (open finding `basic_kill_spares_child`: Kill neither signals a
+    child nor keeps a request in flight from starting one): no run halts, and in some the child is started for — and
+    survives — a task whose terminal status is out; a KILL whose look-up comes FIRST now always refuses the START.
+    The hypotheses of the two partial overlap theorems are met by realistic schedules whose runs really differ. -/
 example :
-    (runI codeCfg .basic .ok [.one .tick, .par .kill .start]).any
+    (runI codeCfg .basic .ok [.one .tick, .par .start .kill]).all (fun o => !o.halted) = true ∧
+    (runI codeCfg .basic .ok [.one .tick, .par .start .kill]).any
+      (fun o => o.st.alive && o.st.killed) = true ∧
+    (runI codeCfg .hook .ok [.one .tick, .par .trigger .kill]).all (fun o => !o.halted) = true ∧
+    (runI codeCfg .basic .ok [.one .tick, .par .kill .start]).all
+      (fun o => o.res == [.one .ok, .one .ok, .par .ok .notask] && !o.st.alive) = true ∧
+    (runI overlapLegacyCfg .basic .ok [.one .tick, .par .kill .start]).any
       (fun o => !o.halted && o.st.alive && o.st.killed) = true ∧
     ([Item.one .tick, .one .start, .par .stop .kill, .one .await].all (noKillSpawn .basic) &&
       [Item.one .tick, .one .start, .par .stop .kill, .one .await].all notTwoKills) = true ∧
